@@ -11,9 +11,30 @@ QUERY = st.tuples(st.integers(0, 7), st.sampled_from(['none', 'none', 'none', 'n
                   st.sampled_from(['none', 'last', 'id', 'id', 'id', 'between']), st.integers(0, 9))
 
 
-def graph_strategy(selfloops=True, classes=('DynGraph', 'DynDiGraph'), max_ops=12, uni=(3, 5)):
-    return gen.history(classes=classes, max_ops=max_ops, min_ops=3, rejects=False, kinds=KINDS, node_kinds=('int', 'safestr'),
-                       attrs=False, horizon=3, maxlen=3, uni=uni, bases=[0, 0, 1, -7, 1000, -10 ** 6, 10 ** 9])
+def graph_strategy(selfloops=True, classes=('DynGraph', 'DynDiGraph'), max_ops=12, uni=(3, 5), tier='quick'):
+    kw = dict(classes=classes, max_ops=max_ops, min_ops=3, rejects=False, kinds=KINDS, node_kinds=('int', 'safestr'),
+              attrs=False, horizon=3, maxlen=3, uni=uni, bases=[0, 0, 1, -7, 1000, -10 ** 6, 10 ** 9])
+    small = gen.history(**kw)
+    if tier != 'thorough':
+        return small
+    # thorough: one more node, one more instant, longer histories (path counts grow exponentially:
+    # enumerations beyond 20 000 paths are skipped and counted)
+    big = dict(kw, max_ops=max_ops + 4, horizon=4, uni=(uni[0], uni[1] + 1))
+    return st.one_of(small, gen.history(**big))
+
+
+def small_universe_cases(directed_step=8, loops=False):
+    """Every presence relation on 3 nodes x instants {0,1,2} (single-instant adds, chronological):
+    all 511 undirected ones without self-loops, and every `directed_step`-th directed one by bit index."""
+    import itertools
+    und = [(0, 1), (0, 2), (1, 2)] + ([(0, 0), (1, 1)] if loops else [])
+    dr = [(0, 1), (1, 0), (0, 2), (2, 0), (1, 2), (2, 1)]
+    for bits in range(1, 2 ** (3 * len(und))):
+        ops = [['add', a, b, t, None] for i, ((a, b), t) in enumerate(itertools.product(und, range(3))) if bits >> i & 1]
+        yield {'cls': 'DynGraph', 'removal': True, 'nodes': [0, 1, 2], 'ops': sorted(ops, key=lambda o: o[3]), 'all_q': True}
+    for bits in range(directed_step, 2 ** 18, directed_step):
+        ops = [['add', a, b, t, None] for i, ((a, b), t) in enumerate(itertools.product(dr, range(3))) if bits >> i & 1]
+        yield {'cls': 'DynDiGraph', 'removal': True, 'nodes': [0, 1, 2], 'ops': sorted(ops, key=lambda o: o[3]), 'all_q': True}
 
 
 def resolve(M, nodes, q):
